@@ -111,11 +111,13 @@ def gen_case(R, tier):
     if m is not None:
       break
   words, src, isa = m
+  # swarm: per-run source-gap profile (prompt source / always a few cycles late / mixed)
+  flt_gap_profile = flt.choice([[0], [2, 3], [3, 4, 6], [0, 0, 0, 1, 2, 6], [1, 2]])
   p = pat(flt.choice([1.0, 0.8, 0.5, 0.3]))
   p[0] = 1
   return {"kind": "proc", "words": words, "src": src, "data_init": data_init, "end_index": end_index,
           "latency": c.choice([1, 1, 2, 3, 4, 6]), "stall_prob": flt.choice([0, 0.2, 0.5, 0.7]),
-          "gaps": [flt.choice([0, 0, 0, 1, 2, 6]) for _ in range(7)], "pattern": p,
+          "gaps": [flt.choice(flt_gap_profile) for _ in range(7)], "pattern": p,
           "stall_seed": R.sub_seed("stall"),
           "sched": [s.choice(("default", "default_s2", "mamba", "mamba_s2")), s.getrandbits(32)],
           "hash_seed": R.sub_seed("hash")}
